@@ -2,6 +2,7 @@ import Spine.Heartbeat
 import Spine.HBCounter
 import Spine.Period
 import Spine.HBPace
+import Spine.HBStampSrc
 import Spine.Generated.Heartbeat
 /-!
 # C16 — facts regenerated from spine/heartbeat_manager.go on every run (tie b1)
@@ -86,5 +87,46 @@ theorem c16_refresh_gap_le_timeout_source (p : HBP.Pace) (hp : HBP.paceOf Genera
 
 example : HBP.begins .ticker (HB.period 1000) (fun _ => 150) 2 - HBP.begins .ticker (HB.period 1000) (fun _ => 150) 1 = 1000 := by
   decide
+
+/-- "carrying … a current timestamp", the source of the reading: in the tree under test the value that is formatted into
+    the data a refresh stores does NOT derive from the value received from the ticker's channel, from a clock reading
+    taken before the tick was received (before the loop, at the top of the loop) or from one carried over from an earlier
+    iteration. The translator follows the data argument of the store back through locals, helpers and conversions to the
+    calls it derives from (generator `heartbeat`, fact stampSource). -/
+theorem c16_timestamp_not_from_tick_source :
+    HBS.srcOf Generated.Heartbeat.stampSource ≠ some .tick := by decide
+
+/-- hence, for the source read off the tree under test (when recognised): the timestamp text of EVERY refresh denotes
+    the instant that refresh begins, up to the resolution of the text — however long earlier refreshes were held up by
+    a back-pressured subscriber (`r` arbitrary), in every local zone -/
+theorem c16_timestamp_current_source (s : HBS.Src) (hs : HBS.srcOf Generated.Heartbeat.stampSource = some s)
+    (d : Nat) (r : Nat → Nat) (k : Nat) (zone : Int) :
+    HBS.denoted {} (HBS.reading s d r k : Nat) zone - (HBP.begins .ticker d r k : Nat) ≤ 500 ∧
+    (HBP.begins .ticker d r k : Nat) - HBS.denoted {} (HBS.reading s d r k : Nat) zone ≤ 500 := by
+  cases s with
+  | clock => exact HBS.clock_current d r k zone
+  | tick => exact absurd hs c16_timestamp_not_from_tick_source
+
+/-- non-vacuity: period 1 s, refresh 1 held up for 3.5 s; refresh 2 begins at 5.5 s and its text denotes 5 s or 6 s -/
+example : HBS.srcOf Generated.Heartbeat.stampSource = some .clock ∧
+    HBP.begins .ticker 1000 (fun k => if k = 1 then 3500 else 0) 2 = 5500 ∧
+    HBS.denoted {} (HBS.reading .clock 1000 (fun k => if k = 1 then 3500 else 0) 2 : Nat) 7200 = 6000 := by decide
+
+/-- and this is what the fact excludes: with the tick's value the refresh that follows a hold-up of a period plus more
+    than a second carries a timestamp that lies more than the resolution before the refresh began (for every period,
+    every history of refresh durations) — while on an undisturbed heartbeat the two sources cannot be told apart -/
+theorem c16_timestamp_from_tick_refuted (d : Nat) (r : Nat → Nat) (k s : Nat) (hr : d + s ≤ r k) (hs : 1000 < s)
+    (zone : Int) :
+    500 < ((HBP.begins .ticker d r (k + 1) : Nat) : Int) - HBS.denoted {} (HBS.reading .tick d r (k + 1) : Nat) zone :=
+  HBS.tick_not_current d r k s hr hs zone
+
+example : HBS.reading .tick 1000 (fun k => if k = 1 then 3500 else 0) 2 = 3000 ∧
+    HBP.begins .ticker 1000 (fun k => if k = 1 then 3500 else 0) 2 = 5500 := by decide
+
+theorem c16_timestamp_sources_agree_when_prompt (d : Nat) (hd : 0 < d) (r : Nat → Nat) (hr : ∀ k, r k ≤ d) (k : Nat) :
+    HBS.reading .tick d r k = HBS.reading .clock d r k :=
+  HBS.tick_is_clock_when_prompt d hd r hr k
+
+example : HBS.reading .tick 400 (fun _ => 150) 3 = 1600 ∧ HBS.reading .clock 400 (fun _ => 150) 3 = 1600 := by decide
 
 end Spine.Props.C16Gen
